@@ -170,6 +170,14 @@ class CkptFamily(common.Family):
   def gen(self, rng, tier):
     spec = pipes.gen_spec(rng, max_n=12, allow_rebatch=False, allow_sink=False)
     level = rng.choice(['source', 'pipeline', 'pipeline', 'chain'])
+    if level != 'source' and rng.random() < 0.25:
+      # A re-batching operator whose batches are whole multiples of the source
+      # elements (one row each): after every emitted batch it holds nothing,
+      # so a checkpoint between two batches is complete.
+      spec['rows'] = 1
+      spec['ops'].insert(rng.randrange(0, len(spec['ops']) + 1),
+                         {'op': 'rebatch', 'size': rng.choice([2, 3, 4])})
+      spec['rebatch_exact'] = True
     if level == 'chain' and rng.random() < 0.4:
       # aggregates on the first named stage as well
       pipes.gen_early(rng, spec)
@@ -205,6 +213,8 @@ class CkptFamily(common.Family):
         cutpoints = sorted(set(cutpoints) |
                            {rng.randrange(cutpoints[0], nops + 1)})
     num_threads = 0 if level == 'source' else rng.choice([0, 0, 0, 1, 2, 3])
+    if spec.get('rebatch_exact'):
+      num_threads = 0    # (each thread would re-batch its own share)
     # unreadable records that the source is configured to skip
     poison = []
     if kind in ('seq', 'multi') and rng.random() < 0.2:
